@@ -10,11 +10,20 @@
 (* key): the source's time may be behind, equal to, or ahead of the local clock (allocation window, clock skew,   *)
 (* far in the future).  Both times are part of the catalog record (cat.now, cat.local).                           *)
 (*                                                                                                               *)
+(* The two slots before the clock choose the SIZE of the catalog: for the collection-record prefix and for the      *)
+(* partition-record prefix of the source's store either no filler records or one block of FillN filler records     *)
+(* (live collections / live partitions with names outside the universe) placed in one GAP of the key order of the  *)
+(* interesting records: before all of them, between any two, behind all of them (cat.fill).  The statement         *)
+(* quantifies over all catalogs, so the table of a large catalog must be that of the small one, with nothing for  *)
+(* the live-only filler names.  FillN is larger than any page a listing could be cut into.                        *)
+(*                                                                                                               *)
 (* Design part  : Design(cat, mode, fl) - a transcription of GetAllDroppedObj (iteration order, the dbName       *)
 (*                variable shared by both loops, the target's name-only lookup of a tombstoned database, string  *)
 (*                keys; the time of the TSO key is taken as it is).  Deviation switches: FixStaleDb, LiveDbGuard, *)
 (*                SafeKeys (TRUE = repaired); negative control ClampLocal (TRUE = the source's time is clamped   *)
-(*                to the local clock - a defect class the code does not have, MUST violate the contract).        *)
+(*                to the local clock - a defect class the code does not have, MUST violate the contract);        *)
+(*                negative control ListTruncated (TRUE = each of the two record listings returns the first Page   *)
+(*                keys in store order only - MUST violate the contract as soon as a catalog is larger than a page).*)
 (* Contract part: Contract(cat, mode, lk, extra) - Snapshot transcribed from the property statement, phrased     *)
 (*                over name lookups (what the writer asks the table), not over key strings.                      *)
 EXTENDS Integers, Sequences, FiniteSets, TLC, Json, SequencesExt, FiniteSetsExt
@@ -27,6 +36,11 @@ CONSTANTS DBs, CNames, PNames,  \* sequences of model names: databases, collecti
           Now,                  \* the source's current time = the TSO key (model ticks = ms; every creation time is smaller)
           Skews,                \* subset of SkewNames: where the source's time lies relative to the clock of the cdc host
           ClampLocal,           \* negative control: TRUE = "now" is min(TSO key, local clock) (as built: FALSE, the key is trusted)
+          FillGaps,             \* catalog size: "off" = no filler records; "ends" = a block before / behind all interesting records;
+                                \*               "all" = a block in any gap of the key order (independently for the two record prefixes)
+          FillN,                \* records of one filler block (more than any plausible page of a listing)
+          Page,                 \* page size of the negative control ListTruncated
+          ListTruncated,        \* negative control: TRUE = a listing returns only the first Page keys (as built: FALSE, one unbounded range)
           FixStaleDb,           \* TRUE = with a nil target the partition loop uses the partition's own database (repaired)
           LiveDbGuard,          \* TRUE = a name-only answer of the target that names a database alive upstream is discarded (repaired)
           SafeKeys              \* TRUE = name keys cannot collide (repaired); FALSE = "<db>_<coll>_<part>" as built
@@ -50,6 +64,7 @@ SkewNames == {"behind", "equal", "window", "ahead", "far"}
 SkewOf(s) == CASE s = "behind" -> 0 - 600000 [] s = "equal" -> 0 [] s = "window" -> 3000
                [] s = "ahead" -> 600000 [] s = "far" -> 2000000000
 ASSUME Skews \subseteq SkewNames /\ Skews # {}
+ASSUME FillGaps \in {"off", "ends", "all"} /\ FillN \in Nat /\ Page \in Nat /\ ListTruncated \in BOOLEAN
 
 Liveish == {"creating", "created"}
 Dropish == {"dropping", "dropped"}
@@ -64,8 +79,20 @@ CollSlots(di, ci) ==
 DbSlots(di) ==
     <<[k |-> "db", di |-> di, ci |-> 0, i |-> 0, pi |-> 0, j |-> 0]>> \o FlattenSeq([ci \in 1..Len(CNames) |-> CollSlots(di, ci)])
 ClkSlot == [k |-> "clk", di |-> 0, ci |-> 0, i |-> 0, pi |-> 0, j |-> 0]
-SlotSeq == FlattenSeq([di \in 1..Len(DBs) |-> DbSlots(di)]) \o <<ClkSlot>>       \* the clock is chosen last
+FillCSlot == [k |-> "fillc", di |-> 0, ci |-> 0, i |-> 0, pi |-> 0, j |-> 0]
+FillPSlot == [k |-> "fillp", di |-> 0, ci |-> 0, i |-> 0, pi |-> 0, j |-> 0]
+\* the size of the catalog and the clock are chosen last (configurations without filler records have no size slots)
+Sized == FillGaps # "off" /\ FillN > 0
+SlotSeq == FlattenSeq([di \in 1..Len(DBs) |-> DbSlots(di)]) \o (IF Sized THEN <<FillCSlot, FillPSlot>> ELSE <<>>) \o <<ClkSlot>>
 NSlots == Len(SlotSeq)
+\* the record slots in the key order of the source's store (collection-info/<db id>/<collection id>,
+\* partitions/<collection id>/<partition id>; ids below are chosen so that slot order = string order of the keys)
+CollSlotSeq == SelectSeq(SlotSeq, LAMBDA s : s.k = "coll")
+PartSlotSeq == SelectSeq(SlotSeq, LAMBDA s : s.k = "part")
+NC == Len(CollSlotSeq)
+NP == Len(PartSlotSeq)
+CollOrd(s) == CHOOSE q \in 1..NC : CollSlotSeq[q] = s
+PartOrd(s) == CHOOSE q \in 1..NP : PartSlotSeq[q] = s
 
 SlotIdx(s) == CHOOSE n \in 1..NSlots : SlotSeq[n] = s
 ValAt(h, s) == h[SlotIdx(s)]
@@ -77,10 +104,23 @@ PartSlot(di, ci, i, pi, j) == [k |-> "part", di |-> di, ci |-> ci, i |-> i, pi |
 \*  - incarnations of one name are consecutive, every one but the newest is gone (dropping/dropped/tombstone)
 \*  - a tombstoned database contains no live collection (the source refuses to drop a non-empty database)
 \*  - a tombstoned collection has no readable partition records (they are removed in the same transaction)
+\* Gaps of the key order a filler block can be placed in: gap g = directly behind the g-th record slot (0 = before all).
+\* Filler records are LIVE, so they need a live container: a block behind a collection slot consists of collections of
+\* that slot's database if it is live - otherwise of a filler database whose key sorts directly behind that database,
+\* which is the gap behind the database's last slot.  Likewise a block behind a partition slot consists of partitions of
+\* that slot's collection incarnation if it has a readable record, otherwise of a filler collection directly behind it.
+GapSet(n) == IF FillGaps = "ends" THEN {0, n} ELSE 0..n
+GapOkC(h, g) == g = 0 \/ LET s == CollSlotSeq[g]
+                         IN ValAt(h, DbSlot(s.di)) = "live" \/ (s.ci = Len(CNames) /\ s.i = MaxInc)
+GapOkP(h, g) == g = 0 \/ LET s == PartSlotSeq[g]
+                         IN ValAt(h, CollSlot(s.di, s.ci, s.i)) \notin {"none", "tombstone"} \/ (s.pi = Len(PNames) /\ s.j = MaxPInc)
+
 Dom(h) ==
     LET s == SlotSeq[Len(h) + 1] IN
     CASE s.k = "db" -> DbStates
       [] s.k = "clk" -> Skews
+      [] s.k = "fillc" -> {-1} \cup {g \in GapSet(NC) : GapOkC(h, g)}          \* -1 = no filler block
+      [] s.k = "fillp" -> {-1} \cup {g \in GapSet(NP) : GapOkP(h, g)}
       [] s.k = "coll" ->
            LET prev == IF s.i = 1 THEN "first" ELSE ValAt(h, CollSlot(s.di, s.ci, s.i - 1))
                dbst == ValAt(h, DbSlot(s.di))
@@ -98,11 +138,33 @@ Next == /\ Len(hist) < NSlots
 Spec == Init /\ [][Next]_vars
 
 (* ------------------------------------------------------------------ catalog of a complete walk *)
-DbId(di) == di
+DbId(di) == di + 1                     \* 2, 3: database id 1 (the source's default database) sorts before them, 25 between, 35 behind
 CollId(di, ci, i) == 100 * di + 10 * ci + i
 PartId(di, ci, i, pi, j) == 100 * CollId(di, ci, i) + 10 * pi + j
 CollCt(i) == 10 * i                    \* creation times: incarnation 1 at 10, 2 at 20, ...
 PartCt(i, j) == 10 * i + 3 * j         \* partitions of incarnation i at 10i+3, 10i+6
+
+\* Filler blocks as the driver realises them (store keys are STRINGS: "2/111" < "2/1115000" < "2/112" < "25/..." < "3/...").
+\*   own  = the block has its own filler container (a live filler database / a live filler collection of filler database 1)
+\*   cont = id of the container (database id for the collection block, collection id for the partition block)
+\*   base = id of the first filler record; the ids base .. base+n-1 have the same number of digits
+NoFill == [on |-> FALSE, gap |-> -1, own |-> FALSE, cont |-> 0, base |-> 0, n |-> 0]
+FillC(h, g) ==
+    IF g = -1 THEN NoFill
+    ELSE IF g = 0 THEN [on |-> TRUE, gap |-> 0, own |-> TRUE, cont |-> 1, base |-> 5000000, n |-> FillN]
+    ELSE LET s == CollSlotSeq[g] IN
+         IF ValAt(h, DbSlot(s.di)) = "live"
+           THEN [on |-> TRUE, gap |-> g, own |-> FALSE, cont |-> DbId(s.di), base |-> 10000 * CollId(s.di, s.ci, s.i) + 5000, n |-> FillN]
+           ELSE [on |-> TRUE, gap |-> g, own |-> TRUE, cont |-> 10 * DbId(s.di) + 5, base |-> 5000000, n |-> FillN]
+FillP(h, g) ==
+    IF g = -1 THEN NoFill
+    ELSE IF g = 0 THEN [on |-> TRUE, gap |-> 0, own |-> TRUE, cont |-> 100, base |-> 5000, n |-> FillN]
+    ELSE LET s == PartSlotSeq[g] IN
+         IF ValAt(h, CollSlot(s.di, s.ci, s.i)) \notin {"none", "tombstone"}
+           THEN [on |-> TRUE, gap |-> g, own |-> FALSE, cont |-> CollId(s.di, s.ci, s.i),
+                 base |-> 10000 * PartId(s.di, s.ci, s.i, s.pi, s.j) + 5000, n |-> FillN]
+           ELSE [on |-> TRUE, gap |-> g, own |-> TRUE, cont |-> 10 * CollId(s.di, s.ci, s.i) + 5, base |-> 5000, n |-> FillN]
+ASSUME MaxInc <= 4 /\ MaxPInc <= 4 /\ Len(DBs) <= 8 /\ Len(CNames) <= 9 /\ Len(PNames) <= 9    \* digit counts of the ids above
 
 SlotVals(h) == [n \in 1..Len(h) |-> [s |-> SlotSeq[n], v |-> h[n]]]
 CatOf(h) ==
@@ -112,21 +174,26 @@ CatOf(h) ==
         ps  == SelectSeq(sv, LAMBDA x : x.s.k = "part" /\ x.v # "none")
         clk == SelectSeq(sv, LAMBDA x : x.s.k = "clk")
         skew == IF Len(clk) = 0 THEN "equal" ELSE clk[1].v
+        fcs == SelectSeq(sv, LAMBDA x : x.s.k = "fillc")
+        fps == SelectSeq(sv, LAMBDA x : x.s.k = "fillp")
+        fc == IF Len(fcs) = 0 THEN -1 ELSE fcs[1].v
+        fp == IF Len(fps) = 0 THEN -1 ELSE fps[1].v
     IN [now |-> Now,                               \* the TSO key
         skew |-> skew, local |-> Now - SkewOf(skew),   \* what the clock of the cdc host shows when the snapshot is taken
         names |-> Concrete,
+        fill |-> [c |-> FillC(h, fc), p |-> FillP(h, fp)],   \* size of the catalog: filler blocks of the two record prefixes
         udbs |-> DBs, ucolls |-> CNames, uparts |-> PNames,
         dbs |-> [n \in 1..Len(dbs) |-> [name |-> DBs[dbs[n].s.di], id |-> DbId(dbs[n].s.di),
                                         st |-> IF dbs[n].v = "live" THEN "live" ELSE "gone",
                                         down |-> dbs[n].v # "goneBoth"]],
         colls |-> [n \in 1..Len(cs) |-> [db |-> DBs[cs[n].s.di], dbid |-> DbId(cs[n].s.di), name |-> CNames[cs[n].s.ci],
                                          inc |-> cs[n].s.i, id |-> CollId(cs[n].s.di, cs[n].s.ci, cs[n].s.i),
-                                         st |-> cs[n].v, ct |-> CollCt(cs[n].s.i)]],
+                                         st |-> cs[n].v, ct |-> CollCt(cs[n].s.i), ord |-> CollOrd(cs[n].s)]],
         parts |-> [n \in 1..Len(ps) |-> [db |-> DBs[ps[n].s.di], coll |-> CNames[ps[n].s.ci],
                                          cid |-> CollId(ps[n].s.di, ps[n].s.ci, ps[n].s.i),
                                          name |-> PNames[ps[n].s.pi], pinc |-> ps[n].s.j,
                                          id |-> PartId(ps[n].s.di, ps[n].s.ci, ps[n].s.i, ps[n].s.pi, ps[n].s.j),
-                                         st |-> ps[n].v, ct |-> PartCt(ps[n].s.i, ps[n].s.j)]]]
+                                         st |-> ps[n].v, ct |-> PartCt(ps[n].s.i, ps[n].s.j), ord |-> PartOrd(ps[n].s)]]]
 
 (* ------------------------------------------------------------------ helpers over a catalog record *)
 DbOf(cat, d) == CHOOSE r \in ToSet(cat.dbs) : r.name = d
@@ -147,10 +214,10 @@ Tome == "_tome"
 
 (* ------------------------------------------------------------------ Design: GetAllDroppedObj as built *)
 \* fl = [stale |-> BOOLEAN (as built: TRUE), guard |-> BOOLEAN (as built: FALSE), safekeys |-> BOOLEAN (as built: FALSE),
-\*       clamp |-> BOOLEAN (as built: FALSE; TRUE = negative control)]
-AsBuiltFlags == [stale |-> TRUE, guard |-> FALSE, safekeys |-> FALSE, clamp |-> FALSE]
-RepairedFlags == [stale |-> FALSE, guard |-> TRUE, safekeys |-> TRUE, clamp |-> FALSE]
-CfgFlags == [stale |-> ~FixStaleDb, guard |-> LiveDbGuard, safekeys |-> SafeKeys, clamp |-> ClampLocal]
+\*       clamp |-> BOOLEAN (as built: FALSE; TRUE = negative control), trunc |-> BOOLEAN (as built: FALSE; TRUE = negative control)]
+AsBuiltFlags == [stale |-> TRUE, guard |-> FALSE, safekeys |-> FALSE, clamp |-> FALSE, trunc |-> FALSE]
+RepairedFlags == [stale |-> FALSE, guard |-> TRUE, safekeys |-> TRUE, clamp |-> FALSE, trunc |-> FALSE]
+CfgFlags == [stale |-> ~FixStaleDb, guard |-> LiveDbGuard, safekeys |-> SafeKeys, clamp |-> ClampLocal, trunc |-> ListTruncated]
 
 \* "current time": the TSO key of the source, whatever the local clock shows.  Control: never later than the local clock.
 \* (cat.local is consulted by the control only: catalogs without the field are fine for the design as built.)
@@ -175,6 +242,26 @@ Discard(cat, fl, origin, dn) == dn = "" \/ (fl.guard /\ origin = Tome /\ dn \in 
 
 ById(S) == SetToSortSeq(S, LAMBDA a, b : a.id < b.id)            \* etcd key order (ids have equal digit counts)
 
+\* The two listings (all keys below the collection-record prefix, all keys below the partition-record prefix; tombstones
+\* are keys too).  As built each is ONE unbounded range request: every record is seen, whatever the size of the catalog -
+\* filler records are live and have names outside the universe, they add entries to the created-maps only and are left
+\* out of the folds below.  Control ListTruncated: a listing returns the first Page keys in store order, so a record is
+\* seen iff its rank in key order (interesting records, the default partition of every readable collection, the filler
+\* block if it sorts before the record, the filler collection of the partition block in filler database 1) is <= Page.
+\* (Catalogs written by hand carry no cat.fill / ord fields: they are consulted by the control only.)
+FillOf(cat, kind) == IF "fill" \in DOMAIN cat THEN cat.fill[kind] ELSE NoFill
+RankC(cat, c) ==
+    LET f == FillOf(cat, "c") fp == FillOf(cat, "p")
+    IN Cardinality({x \in ToSet(cat.colls) : x.ord <= c.ord}) + (IF f.on /\ c.ord > f.gap THEN f.n ELSE 0)
+                                                              + (IF fp.on /\ fp.own THEN 1 ELSE 0)
+RankP(cat, p) ==
+    LET f == FillOf(cat, "p")
+    IN Cardinality({x \in ToSet(cat.parts) : x.ord <= p.ord}) + Cardinality({c \in VisColls(cat) : c.id < p.cid})
+         + (IF f.on /\ p.ord > f.gap THEN f.n ELSE 0)
+SeenC(cat, fl, c) == ~fl.trunc \/ RankC(cat, c) <= Page
+\* a partition whose collection record was not listed is skipped (its collection name is unknown)
+SeenP(cat, fl, p) == ~fl.trunc \/ (RankP(cat, p) <= Page /\ SeenC(cat, fl, CollById(cat, p.cid)))
+
 CollLoop(cat, mode, fl) ==
     LET step(acc, c) ==
           LET origin == SrcDbName(cat, c.dbid)
@@ -186,7 +273,8 @@ CollLoop(cat, mode, fl) ==
                                           !.db = IF mode = "milvus" /\ origin # dn THEN Put(@, DKey(fl, dn), SrcNow(cat, fl) - 1) ELSE @]
                     IN IF c.st \in Liveish THEN [a1 EXCEPT !.created = Put(@, key, c.ct)]
                        ELSE [a1 EXCEPT !.coll = Put(@, key, SrcNow(cat, fl) - 1)]
-    IN FoldLeft(step, [dbName |-> "", db |-> EmptyMap, coll |-> EmptyMap, created |-> EmptyMap], ById(VisColls(cat)))
+    IN FoldLeft(step, [dbName |-> "", db |-> EmptyMap, coll |-> EmptyMap, created |-> EmptyMap],
+                ById({c \in VisColls(cat) : SeenC(cat, fl, c)}))
 
 PartLoop(cat, mode, fl, dbName0) ==
     LET step(acc, p) ==
@@ -200,7 +288,7 @@ PartLoop(cat, mode, fl, dbName0) ==
                         a1 == [acc EXCEPT !.dbName = dn]
                     IN IF p.st \in Liveish THEN [a1 EXCEPT !.created = Put(@, key, p.ct)]
                        ELSE [a1 EXCEPT !.part = Put(@, key, SrcNow(cat, fl) - 1)]
-        order == SetToSortSeq(VisParts(cat), LAMBDA a, b : a.cid < b.cid \/ (a.cid = b.cid /\ a.id < b.id))
+        order == SetToSortSeq({p \in VisParts(cat) : SeenP(cat, fl, p)}, LAMBDA a, b : a.cid < b.cid \/ (a.cid = b.cid /\ a.id < b.id))
     IN FoldLeft(step, [dbName |-> dbName0, part |-> EmptyMap, created |-> EmptyMap], order)
 
 Adjust(dropped, created) == [k \in DOMAIN dropped |-> IF k \in DOMAIN created THEN created[k] - 1 ELSE dropped[k]]
